@@ -113,7 +113,7 @@ class _FakeServer(object):
     shutdown_signal = False
 
 
-def dev_server_environ(raw_path, method, query='', absolute_form=False, headers=None, safe='/+'):
+def dev_server_environ(raw_path, method, query='', absolute_form=False, headers=None, safe='/+', server=None):
     """The environ clastic's own development server builds (clastic/_werkzeug_serving.py, its request handler's
     make_environ) for the request line `<method> <percent-encoded path>[?query] HTTP/1.1`."""
     import io
@@ -121,7 +121,7 @@ def dev_server_environ(raw_path, method, query='', absolute_form=False, headers=
     from urllib.parse import quote
     from clastic._werkzeug_serving import WSGIRequestHandler
     hd = WSGIRequestHandler.__new__(WSGIRequestHandler)
-    hd.server = _FakeServer()
+    hd.server = server if server is not None else _FakeServer()
     hd.command = method
     hd.request_version = 'HTTP/1.1'
     hd.client_address = ('127.0.0.1', 50000)
@@ -136,3 +136,18 @@ def dev_server_environ(raw_path, method, query='', absolute_form=False, headers=
     env = hd.make_environ()
     env.setdefault('wsgi.errors', io.StringIO())
     return env
+
+
+class DevServer(object):
+    """One real server object of clastic's development server (bound to an ephemeral loopback port, never serving):
+    the environs of several requests are built against the *same* server, as they are in a running process."""
+    def __init__(self, app, threaded=False):
+        from clastic._werkzeug_serving import make_server
+        self.server = make_server('127.0.0.1', 0, app, threaded=threaded)
+
+    def environ(self, raw_path, method='GET', query='', headers=None, safe='/+'):
+        return dev_server_environ(raw_path, method, query, headers=headers, safe=safe, server=self.server)
+
+    def close(self):
+        self.server.server_close()
+
